@@ -75,12 +75,17 @@ func checkRT(c RTCase) error {
 		return fmt.Errorf("IPToReversedAddr(%v) = %q, canonical PTR name is %q", ip, got, want)
 	}
 	variant := respell(want, c.Upper, c.Dot)
-	back, err := netutil.IPFromReversedAddr(variant)
-	if err != nil {
-		return fmt.Errorf("IPFromReversedAddr(%q) failed: %v (name of %v)", variant, err, a)
-	}
-	if back != a.Unmap() {
-		return fmt.Errorf("IPFromReversedAddr(%q) = %v, want %v", variant, back, a.Unmap())
+	// Decoded three times in a row: a repeated name is the case a "last
+	// result" shortcut serves (other goroutines decode other names meanwhile
+	// in the concurrent variant).
+	for rep := 0; rep < 3; rep++ {
+		back, err := netutil.IPFromReversedAddr(variant)
+		if err != nil {
+			return fmt.Errorf("IPFromReversedAddr(%q) failed: %v (name of %v, call %d)", variant, err, a, rep+1)
+		}
+		if back != a.Unmap() {
+			return fmt.Errorf("IPFromReversedAddr(%q) = %v, want %v (call %d of 3 with this name)", variant, back, a.Unmap(), rep+1)
+		}
 	}
 	return nil
 }
